@@ -315,10 +315,23 @@ func (s *clientSocket) sendConnectPacket(authData any) {
 		m["offset"] = lastOffset
 
 		if authData != nil {
-			a := structs.New(&authData)
-			a.TagName = "json"
-			for k, v := range a.Map() {
-				m[k] = v
+			// SetAuth accepts a struct, a map, or a pointer to one of them.
+			rv := reflect.ValueOf(authData)
+			for rv.Kind() == reflect.Ptr && !rv.IsNil() {
+				rv = rv.Elem()
+			}
+			switch rv.Kind() {
+			case reflect.Map:
+				iter := rv.MapRange()
+				for iter.Next() {
+					m[fmt.Sprint(iter.Key().Interface())] = iter.Value().Interface()
+				}
+			case reflect.Struct:
+				a := structs.New(rv.Interface())
+				a.TagName = "json"
+				for k, v := range a.Map() {
+					m[k] = v
+				}
 			}
 		}
 		v = m
